@@ -98,6 +98,12 @@ def run(tier):
     for pre, post in (("", ""), ("", "(b1-4)GlcNAc")):
         cases.append((f"Man(a1-2)[Gal(a1-3)][Fuc(a1-4)][Xyl(b1-6)]Glc{post}", None, set()))
         cases.append((f"Man(a1-2)[Gal(a1-3)][Fuc(a1-4)][Xyl3{tok0}(b1-6)]Glc{post}", f"Man(a1-2)[Gal(a1-3)][Fuc(a1-4)][Xyl(b1-6)]Glc{post}", {"unsupported-modification"}))
+    # an unsupported modification followed (and preceded) by supported ones on the same residue: full=False gives the
+    # molecule without the unsupported one only
+    for tok in (unsup if tier == "thorough" else r.sample(unsup, min(len(unsup), 6))):
+        cases.append((f"Gal3{tok}6S", "Gal6S", {"unsupported-modification"}))
+        cases.append((f"Man(a1-3)Glc4{tok}6Ac", "Man(a1-3)Glc6Ac", {"unsupported-modification"}))
+        cases.append((f"Glc2Ac3{tok}6S(b1-4)Glc", "Glc2Ac6S(b1-4)Glc", {"unsupported-modification"}))
     # detached fragments of one, two and three residues with fully specified inner linkages, alone and two at once
     for frag in ("Man(a1-4)", "Fuc(a1-2)Gal(b1-3)", "Neu5Ac(a2-3)Gal(b1-4)GlcNAc(b1-3)", "Gal(b1-4)[Fuc(a1-3)]GlcNAc(b1-2)"):
         for base_ in ("GlcNAc(b1-4)Glc", "Man(a1-3)[Man(a1-6)]Man(b1-4)GlcNAc"):
